@@ -831,8 +831,11 @@ def probe_attr(m: str, n: str) -> str:
         ser = issubclass(obj, SubclassJSONSerializer)
         try:
             reg = obj in JSONSerializableTypeRegistry()._deserializers
-        except TypeError:
+        except Exception:  # noqa: BLE001
             reg = False
+        # ground truth is the harness's own record of the `register` calls made so far (uuid.UUID: by krrood itself on
+        # import), not only what the registry under test remembers of them
+        reg = reg or obj in EXT or obj is globals().get("RegisteredNode")
         impl = implements_from_json(obj) if ser else True  # only meaningful for serializer classes
         return f"(cls {enc_cls(obj)} {'T' if ser else 'F'} {'T' if reg else 'F'} {'T' if impl else 'F'})"
     if isinstance(obj, types.ModuleType):
